@@ -98,3 +98,36 @@ def set_raw(model, **fields):
 
 def names(n):
     return ["j%d" % i for i in range(n)]
+
+
+class ProcProtocol:
+    """The rest of subprocess.Popen's public protocol for the kernels' process stand-ins, so that a refactoring of JADE from
+    Popen/call to subprocess.run/check_output (context manager, communicate(input, timeout), wait, kill) meets the same stub.
+    Subclasses provide returncode (None while running) and may override communicate."""
+    args = ()
+    stdout = None
+    stderr = None
+    stdin = None
+
+    def poll(self):
+        return self.returncode
+
+    def wait(self, timeout=None):
+        return self.poll()
+
+    def communicate(self, input=None, timeout=None):
+        return b"", b""
+
+    def terminate(self):
+        pass
+
+    kill = terminate
+
+    def send_signal(self, sig):
+        pass
+
+    def __enter__(self):
+        return self
+
+    def __exit__(self, *a):
+        return False
